@@ -1,5 +1,6 @@
 import Varlink
 import Driver.Proto
+import Driver.Cmds
 namespace Driver.Misc
 open Driver Varlink
 
@@ -323,6 +324,117 @@ def cmdClient : P String := do
         | none => return s!"DIFF C11 sent-call-not-decodable-by-service {feats0}"
       | _ => return s!"DIFF C02 client-frame-not-a-json-object {feats0}"
 
-def table : List (String × P String) := [("act", cmdAct), ("atoi", cmdAtoi), ("addr", cmdAddr), ("reg", cmdReg), ("client", cmdClient)]
+/-! ## C02/C03: `e2e <transport> <n> {<method> <flags> <hasparams> <params>} | <k> {seen} {<sendok> <m> {kind flags params name}} <hascap> <c2s> <s2c>` -/
+
+structure E2eCall where
+  method : Bytes
+  flags : Nat
+  params : Option Bytes
+
+def e2eReg : Registry :=
+  { vendor := str "e2e", product := str "p", version := str "1", url := str "u",
+    ifaces := [(str "org.example.e2e", str "interface org.example.e2e\nmethod M() -> ()\n")] }
+
+/-- what the client's receive loop returns for the frames the service wrote for one call -/
+def expectedResults (frames : List ReplyFrame) : List RecvResult :=
+  -- the loop stops after the first result that is not a continues-reply
+  let rec go : List ReplyFrame → List RecvResult
+    | [] => []
+    | f :: fs =>
+      -- the client's decoder reads a JSON null as "no parameters" (applyReplyMember)
+      let ps : Option JVal := f.params.bind fun v => match v with | .null => none | v => some v
+      let r : RecvResult := if f.error ≠ [] then dispatchError f.error ps else .reply ps f.continues
+      match r with
+      | .reply _ true => r :: go fs
+      | _ => [r]
+  go frames
+
+/-- every message of a captured direction is one JSON object + NUL; returns the parsed objects -/
+def captureMessages (bs : Bytes) : Option (List JVal) :=
+  let (frames, tail) := splitOnNul bs
+  if !tail.isEmpty then none
+  else
+    let parsed := frames.map fun f => match parseDoc f with
+      | some (.obj ms) => some (JVal.obj ms)
+      | _ => none
+    if parsed.any Option.isNone then none else some (parsed.filterMap id)
+
+def cmdE2e : P String := do
+  let transport ← tok
+  let calls ← listOf (do
+    let m ← bytes; let f ← nat; let hp ← bool; let p ← bytes
+    pure ({ method := m, flags := f, params := if hp then some p else none } : E2eCall))
+  expect "|"
+  let seen ← listOf bytes
+  let rec obsP : Nat → P (List (Bool × List RecvObs))
+    | 0 => pure []
+    | k + 1 => do
+      let ok ← bool
+      let rs ← listOf (do let kd ← tok; let f ← nat; let p ← bytes; let n ← bytes; pure ({ kind := kd, flags := f, params := p, name := n } : RecvObs))
+      let r ← obsP k
+      pure ((ok, rs) :: r)
+  let obs ← obsP calls.length
+  let hasCap ← bool
+  let c2s ← bytes
+  let s2c ← bytes
+  -- model: each call decoded as the service decodes the client's object, then handled
+  let mut expSeen : List (Option JVal) := []
+  let mut expC2s : List JVal := []
+  let mut expS2c : List JVal := []
+  let mut idx := 0
+  let mut maxSeq := 0
+  let mut deep := false
+  for (c, (sendOk, rs)) in calls.zip obs do
+    let f := Flags.ofNat c.flags
+    let pv : Option JVal ← match c.params with
+      | none => pure none
+      | some t => match parseDoc t with
+        | some v => pure (some v)
+        | none => throw "unparsable generated parameters"
+    if !sendOk then return s!"DIFF C03 send-failed call={idx} transport={transport}"
+    let obj := callObj c.method pv f.more f.oneway f.upgrade
+    expC2s := expC2s ++ [obj.sanitize]
+    let ci : CallIn := { method := c.method, params := pv.bind (fun v => match v with | .null => none | v => some v),
+                         more := f.more, oneway := f.oneway, upgrade := f.upgrade }
+    let o := handleCall e2eReg scriptedBehaviour ci
+    match o.route with
+    | .user _ _ => expSeen := expSeen ++ [ci.params]
+    | _ => pure ()
+    expS2c := expS2c ++ o.frames.map (fun fr => (replyObj fr.sanitize))
+    if f.oneway then
+      if !rs.isEmpty then return s!"DIFF C03 oneway-call-got-results call={idx} transport={transport}"
+    else
+      let exp := expectedResults (o.frames.map ReplyFrame.sanitize)
+      if exp.length != rs.length then
+        return s!"DIFF C03 reply-count call={idx} expected={exp.length} observed={rs.length} transport={transport}"
+      for (m, r) in exp.zip rs do
+        if !recvAgrees m r then
+          return s!"DIFF C03 reply-differs call={idx} model={recvKind m} observed={r.kind} transport={transport}"
+      if exp.length > maxSeq then maxSeq := exp.length
+    match pv with
+    | some v => if v.depth ≥ 2 then deep := true
+    | none => pure ()
+    idx := idx + 1
+  -- what the handler read
+  if seen.length != expSeen.length then
+    return s!"DIFF C03 handler-invocations expected={expSeen.length} observed={seen.length} transport={transport}"
+  for (s, e) in seen.zip expSeen do
+    let sv : Option JVal := if s == [0, 97, 98, 115, 101, 110, 116] then none else parseDoc s
+    if !optJValBeq sv (e.map JVal.sanitize) then
+      return s!"DIFF C03 handler-read-different-parameters transport={transport}"
+  let feats := s!"nt={if deep then 1 else 0} transport={transport} calls={calls.length} maxseq={if maxSeq > 10 then 11 else maxSeq} captured={hasCap}"
+  if hasCap then
+    match captureMessages c2s, captureMessages s2c with
+    | some cm, some sm =>
+      -- the captured messages begin with exactly the model's messages (a final GetInfo follows)
+      if !(listBeq (fun (a b : JVal) => a == b) expC2s (cm.take expC2s.length)) then
+        return s!"DIFF C02 client-messages-on-the-wire-differ {feats}"
+      if !(listBeq (fun (a b : JVal) => a == b) expS2c (sm.take expS2c.length)) then
+        return s!"DIFF C02 service-messages-on-the-wire-differ {feats}"
+      return s!"OK {feats} msgs={if cm.length + sm.length > 20 then 21 else cm.length + sm.length}"
+    | _, _ => return s!"DIFF C02 captured-stream-is-not-a-sequence-of-json-objects-each-followed-by-one-nul {feats}"
+  return s!"OK {feats}"
+
+def table : List (String × P String) := [("act", cmdAct), ("atoi", cmdAtoi), ("addr", cmdAddr), ("reg", cmdReg), ("client", cmdClient), ("e2e", cmdE2e)]
 
 end Driver.Misc
